@@ -130,12 +130,15 @@ func (o *Org) ConstInt() (int64, bool) {
 type Resolver struct {
 	P     *Prog
 	Env   map[ssa.Value]*Org
+	// Site: for a callee whose parameters are bound in Env, the call
+	// instruction in the caller (lets analyses continue in the caller).
+	Site  map[*ssa.Function]ssa.Instruction
 	cache map[ssa.Value]*Org
 	busy  map[ssa.Value]bool
 }
 
 func NewResolver(p *Prog) *Resolver {
-	return &Resolver{P: p, Env: map[ssa.Value]*Org{}, cache: map[ssa.Value]*Org{}, busy: map[ssa.Value]bool{}}
+	return &Resolver{P: p, Env: map[ssa.Value]*Org{}, Site: map[*ssa.Function]ssa.Instruction{}, cache: map[ssa.Value]*Org{}, busy: map[ssa.Value]bool{}}
 }
 
 // strip removes representation-only wrappers.
@@ -584,4 +587,27 @@ func isCalleeObj(cc *ssa.CallCommon, obj types.Object) bool {
 		}
 	}
 	return false
+}
+
+// Bind returns a resolver for callee fn called at site with the caller
+// resolver r: parameters are bound to the caller's argument origins.
+func (r *Resolver) Bind(fn *ssa.Function, site ssa.CallInstruction) *Resolver {
+	nr := NewResolver(r.P)
+	for k, v := range r.Env {
+		nr.Env[k] = v
+	}
+	for k, v := range r.Site {
+		nr.Site[k] = v
+	}
+	args := site.Common().Args
+	if site.Common().IsInvoke() {
+		args = append([]ssa.Value{site.Common().Value}, args...)
+	}
+	for i, prm := range fn.Params {
+		if i < len(args) {
+			nr.Env[prm] = r.Of(args[i])
+		}
+	}
+	nr.Site[fn] = site
+	return nr
 }
